@@ -87,6 +87,9 @@ func VerifHarness_Step_BasketPut() {
 					zz.Assert(zz.And(cf, zz.StrEq(cl.CreditTypeAbbrev, b.CreditTypeAbbrev)), "C11 Put succeeds only for credits of the basket's credit type")
 				}
 				minted := zz.QMul(zz.QPow10(zzinv.Precision), total)
+				zz.Label("put.minted.expected", minted)
+				zz.Label("put.owner.delta", zz.QSub(zz.BankBal1(s.Signer, b.BasketDenom), zz.BankBal0(s.Signer, b.BasketDenom)))
+				zz.Label("put.supply.delta", zz.QSub(zz.BankSupply1(b.BasketDenom), zz.BankSupply0(b.BasketDenom)))
 				zz.Assert(zz.QEq(zz.QSub(zz.BankBal1(s.Signer, b.BasketDenom), zz.BankBal0(s.Signer, b.BasketDenom)), minted), "C05 Put mints exactly amount x 10^precision basket tokens to the depositor")
 				zz.Assert(zz.QEq(zz.QSub(zz.BankSupply1(b.BasketDenom), zz.BankSupply0(b.BasketDenom)), minted), "C05 Put increases the token supply by exactly amount x 10^precision")
 			}
